@@ -13,7 +13,7 @@ RULE = ("process-level runs of the real binary (root file = /repo/b3sum/src/main
         "over flag combinations of --keyed/--derive-key/--length/--seek/--no-mmap/--num-threads/--raw/--no-names/--tag, files around the "
         "mmap threshold, stdin, missing files, odd names; --check cases mixing good, stale, missing-file and malformed lines, LF/CRLF, "
         "--quiet, several checkfiles; checkfile lines of 3 KiB .. 64 KiB (existing files behind long ./././ paths, plain/tagged/escaped, and over-PATH_MAX entries built so that a reader cutting the line at 4096..65537 bytes would see a second, valid entry); files whose mmap fails (/sys/kernel/btf/vmlinux, a 1.5 GiB sparse file under RLIMIT_AS = 1 GiB) hashed with and without --no-mmap; stdout and exit status compared with the prediction of the model's decision logic "
-        "(pure-Python restatement of B3/B3sum/Model.lean, itself diffed against the Lean driver on the P ops) with digests taken from "
+        "inputs whose read fails with EIO after some bytes (a pty whose other end goes away) followed by a good file; (pure-Python restatement of B3/B3sum/Model.lean, itself diffed against the Lean driver on the P ops) with digests taken from "
         "the library through the driver; non-trivial = every case (each has its own argv/files); distinct = distinct argv+files")
 ASSUMPTIONS = ["clap's argument grammar is not modelled: only accepted flag combinations are generated",
                "the digest oracle for this property is the library itself (P xof); library = specification is C01-C03",
@@ -133,6 +133,41 @@ class ProcStage:
                     mism.append(dict(kind="impl-vs-spec", impl_name="b3sum", ops=[], impl_differs=True,
                                      note=f"b3sum {' '.join(extra)} <fifo written in 5000-byte bursts> differs from the digest of the same bytes in a regular file",
                                      impl_output=a.stdout[:100].decode("utf-8", "replace"), spec_output=want[:100].decode("utf-8", "replace")))
+            # an input whose read fails AFTER some bytes were delivered (a pseudo-terminal whose other end goes away: the data
+            # written so far is read, then read() fails with EIO), followed by a good file: the failure is reported, the exit
+            # status is 1, and the good file's line is exactly its own digest - in plain, keyed and --no-mmap runs
+            import tty
+            good = os.path.join(tmpd, "after_error.bin")
+            with open(good, "wb") as f:
+                f.write(data[:7000])
+            for extra, stdin_data in ([], None), (["--no-mmap"], None), (["--keyed"], bytes(range(32))):
+                try:
+                    want2 = subprocess.run([exe, "--no-names"] + extra + [good], input=stdin_data, stdout=subprocess.PIPE, stderr=subprocess.PIPE, timeout=60).stdout
+                    mfd, sfd = os.openpty()
+                    tty.setraw(sfd)
+                    pts = os.ttyname(sfd)
+                    os.write(mfd, b"partial input before the failure")
+                    pr = subprocess.Popen([exe, "--no-names"] + extra + [pts, good], stdin=subprocess.PIPE if stdin_data is not None else subprocess.DEVNULL,
+                                          stdout=subprocess.PIPE, stderr=subprocess.PIPE)
+                    if stdin_data is not None:
+                        pr.stdin.write(stdin_data)
+                        pr.stdin.close()
+                    time.sleep(0.4)
+                    os.close(sfd)
+                    os.close(mfd)
+                    got, err = pr.stdout.read(), pr.stderr.read()
+                    rcx = pr.wait(timeout=60)
+                except Exception:
+                    continue
+                hist["read-error-mid-file"] = hist.get("read-error-mid-file", 0) + 1
+                distinct.add("read-error-mid-file" + repr(extra))
+                if b"rror" not in err:
+                    continue          # the pty delivered an orderly end of input on this kernel: nothing to check
+                if (got != want2 or rcx != 1) and len(mism) < 9:
+                    mism.append(dict(kind="impl-vs-spec", impl_name="b3sum", ops=[], impl_differs=True,
+                                     note=f"b3sum {' '.join(extra)} <pty that fails with EIO after 32 bytes> <good file>: the good file's line must be its own digest and the exit status 1",
+                                     impl_output=got[:100].decode("utf-8", "replace") + f" exit={rcx} " + err[:200].decode("utf-8", "replace"),
+                                     spec_output=want2[:100].decode("utf-8", "replace") + " exit=1"))
         finally:
             shutil.rmtree(tmpd, ignore_errors=True)
         samples = [b3sum_gen.case_to_json(c) for c in self.cases[:2]]
